@@ -1422,6 +1422,8 @@ static gboolean priv_conn_keepalive_tick_unlocked (NiceAgent *agent)
       NiceComponent *component = j->data;
       if (component->selected_pair.local != NULL) {
 	CandidatePair *p = &component->selected_pair;
+        uint8_t uname[NICE_STREAM_MAX_UNAME];
+        size_t uname_len = 0;
 
         /* Disable keepalive checks on TCP candidates unless explicitly enabled */
         if (p->local->c.transport != NICE_CANDIDATE_TRANSPORT_UDP &&
@@ -1435,12 +1437,17 @@ static gboolean priv_conn_keepalive_tick_unlocked (NiceAgent *agent)
             continue;
         }
 
-        if (NICE_AGENT_DO_KEEPALIVE_CONNCHECKS (agent)) {
-          uint8_t uname[NICE_STREAM_MAX_UNAME];
-          size_t uname_len =
+        if (NICE_AGENT_DO_KEEPALIVE_CONNCHECKS (agent))
+          uname_len =
               priv_create_username (agent, agent_find_stream (agent, stream->id),
                   component->id, (NiceCandidate *) p->remote,
                   (NiceCandidate *) p->local, uname, sizeof (uname), FALSE);
+
+        /* Without remote credentials (right after an ICE restart) a check
+         * cannot be formed: keep the pair alive with an indication below,
+         * instead of leaving its next_tick in the past.
+         */
+        if (uname_len > 0) {
           uint8_t *password = NULL;
           size_t password_len = priv_get_password (agent,
               agent_find_stream (agent, stream->id),
